@@ -110,7 +110,7 @@ Proof.
              (3 <=? npre) eqn:E5, (1 <=? nsamp) eqn:E6, (npre + 1 <=? nsamp) eqn:E7, (0 <? nsamp) eqn:E8, (0 <? npre) eqn:E9;
       cbn; try reflexivity; exfalso; lia.
   - (* projectors *)
-    unfold in_range. destruct b64ok, matok, fl, ((0 <=? idx) && (idx <? nch)), (pcols =? ns); reflexivity.
+    unfold in_range. destruct b64ok, matok, fl, ((0 <=? idx) && (idx <? nch)), (pcols =? ns), (bcols =? 1), (brows =? ns); reflexivity.
   - (* write control *)
     destruct w as [l o p | | | u |]; [| | | destruct u |]; cbn;
       destruct fl, wr, hp, io; try destruct l; try destruct o; try destruct p; reflexivity.
